@@ -12,7 +12,7 @@ TEXT = {
          "kernel-checked probability proof over a free monad + differential execution on complete cells"),
  "C03": ("§8 C03", "Lean theorems for every recipe (flag words universally quantified) and every random stream (Rand.All): length, single-character atom tokens, membership in allowed-or-required minus excluded, every non-empty required set hit; Alphabet() strictly increasing with the exact membership law. Tie: charinfo/chargen on the real code.",
          "kernel-checked safety proof over all streams + differential execution"),
- "C04": ("§8 C04", "Lean theorems: the word, capitalisation and separator choices of WLRecipe.Generate are independent draws with the stated marginals (product law), 'one' uniform over positions, 'random' uniform over subsets; explicit marginals for every separator setting and list: each position's word uniform (word_marginal), pairs of positions independent, each separator a fresh draw from its function. Tie: wlgen operations incl. complete cells on the real code; statistical marginal checks as failing-input search.",
+ "C04": ("§8 C04", "Lean theorems: the word, capitalisation and separator choices of WLRecipe.Generate are independent draws with the stated marginals (product law), 'one' uniform over positions, 'random' uniform over subsets; explicit marginals for every separator setting and list: each position's word uniform (word_marginal), pairs of positions independent, each separator a fresh draw from its function, two gaps independent (C04c.sep_pair_independent). Tie: wlgen operations incl. complete cells on the real code; statistical marginal checks as failing-input search.",
          "kernel-checked product-law proof + differential execution on complete cells"),
  "C05": ("§8 C05", "Lean theorems on every stream: atoms are list words or their title form exactly at the scheme's positions, separators exactly between atoms when non-empty, String/Atoms/Separators laws; hypothesis 'no empty word' forced by the proof, with the counterexample (known finding D8). Tie: wlgen on the real code with structure checks.",
          "kernel-checked structural proof + differential execution"),
@@ -24,7 +24,7 @@ TEXT = {
          "kernel-checked order-independence proof + repeated-construction differential execution"),
  "C09": ("§8 C09", "Lean theorems: a run depends only on the decoded words; chunking of reads is irrelevant; a fault at any read position yields panic, never a password. Regenerated facts: crypto/rand is the only randomness-capable import/call. Tie: fault/short-read injection at every read position on the real code.",
          "kernel-checked fault/chunking proof + regenerated import facts + fault injection"),
- "C10": ("§8 C10", "Lean theorems for every visiting order and idempotent title: kept set specification, no duplicates, Size, order/multiplicity independence. Tie: wlnew on the real code (kept set read back through generation, caller slice compared).",
+ "C10": ("§8 C10", "Lean theorems for every visiting order and idempotent title: kept set specification, no duplicates, Size, order/multiplicity independence; the idempotence hypothesis is proved for the ASCII transcription of strings.Title (C10b.title_idem), which title operations compare with the real function. Tie: wlnew on the real code (kept set read back through generation, caller slice compared).",
          "kernel-checked normalisation proof over all map orders + differential execution"),
  "C11": ("§8 C11", "Lean theorems: round trip tokenize(concat ts, makeIndices ts) = ts for all token sequences with 1..255-character tokens (any type bytes), error for longer tokens, index size law by kind; composed with the generators: every password a character recipe returns round-trips with index [0], every password a wordlist recipe returns round-trips when words, title forms and separators are 1..255 characters (C11b); regenerated fact: no shared scratch state. Tie: mkidx on the real code with an in-harness round-trip oracle, concurrent callers included.",
          "kernel-checked round-trip proof + differential execution"),
